@@ -41,6 +41,10 @@ class SubFamily:
         sc = {'id': '', 'family': 'sub', 'sched': rt['flavor'] + '-' + mode, 'seed': rng.randrange(1 << 30), 'runtime': rt, 'engine': {'store': 'mem', 'keep_processes': True}, 'models': [json.dumps(m) for m in models],
               'responder': {'mode': mode, 'order': rng.choice(['fifo', 'lifo', 'seeded']), 'rules': rules},
               'ops': [{'op': 'start', 'mid': 'm0', 'vars': {'pid': 'p0'}}, {'op': 'run', 'snap': opts.get('snap', 'live')}, {'op': 'snapshot', 'level': opts.get('snap', 'live')}]}
+        if mode == 'quiescent' and rng.random() < opts.get('evict', 0.3):
+            # the whole chain is dropped from the cache while the leaf waits for the client
+            sc['faults'] = {'evict_at': sorted(set(rng.randint(1, 3) for _ in range(rng.randint(1, 2))))}
+            sc['sched'] += '+evict'
         return {'scenarios': [sc], 'meta': {'depth': depth, 'missing': missing, 'ending': ending, 'tag': tag, 'par': par}, 'digest': digest([depth, missing, ending, par, rt, mode, rules]), 'nontrivial': True}
 
     def judge(self, c, opts, obs):
